@@ -27,7 +27,8 @@ ALL_GROUPS = ("fa", "smooth", "vd", "pga", "pgv", "pgd", "resp")
 
 REGEN_SIG = ["gen_fa_spectrum", "generate_fa_spectrum", "gen_smooth_fa_spectrum", "generate_smooth_fa_spectrum"]
 REGEN_ACC = REGEN_SIG + ["gen_response_spectrum", "generate_response_spectrum",
-                         "generate_displacement_and_velocity_series"]
+                         "generate_displacement_and_velocity_series", "generate_peak_values",
+                         "generate_cumulative_stats", "generate_duration_stats", "generate_all_motion_stats"]
 REGEN_FILLS = {"gen_fa_spectrum": ("fa",), "generate_fa_spectrum": ("fa",),
                "gen_smooth_fa_spectrum": ("fa", "smooth"), "generate_smooth_fa_spectrum": ("fa", "smooth"),
                "gen_response_spectrum": ("resp",), "generate_response_spectrum": ("resp",),
@@ -55,8 +56,17 @@ SET_SMOOTH = ["attr:smooth_fa_freqs", "attr:smooth_fa_frequencies", "by_range", 
               "attr:smooth_freq_points", "gen_smooth"]
 SET_RESP = ["attr:response_times", "gen_resp", "generate_resp", "resp_series"]
 KOPS = ["same_start", "time_match", "combine_motions"]
+KREADS = ["generate_response_spectrums", "time", "values_by_index", "n_signals"]
 
 LIMIT = 1.0e6
+# explicit generator calls with non-default arguments: what they cache has no fresh-object reference, so the
+# groups they fill are excluded from the twin comparison until the next value change, but stay under the
+# non-interference invariant (operations on other objects must not change them)
+CUSTOM_KW = {"gen_fa_spectrum": [{"p2_plus": 1}, {"n": 256}, {"p2_plus": 2}],
+             "gen_smooth_fa_spectrum": [{"band": 20}], "generate_smooth_fa_spectrum": [{"band": 60}],
+             "gen_response_spectrum": [{"xi": 0.1}, {"min_dt_ratio": 8}, {"xi": 0.0}],
+             "generate_response_spectrum": [{"xi": 0.2}, {"min_dt_ratio": 2}],
+             "generate_displacement_and_velocity_series": [{"trap": False}]}
 
 
 def matrix_cells():
@@ -101,7 +111,8 @@ SWEEP_K2 = [(cls, mk, k) for cls in ("Signal", "AccSignal") for mk in MKINDS[cls
 # reads (generators and indirect reads count too) under an injected failure, from a cold and from a warm object
 SWEEP_K2_READS = [(cls, x, k) for cls, obs in (("Signal", OBS_SIG), ("AccSignal", OBS_ACC)) for x in obs
                   if x in GROUP_OF for k in range(4)]
-N_SWEEP = len(SWEEP_STATE) + len(SWEEP_K2) + len(SWEEP_K2_READS)
+SWEEP_NI = [(m, i, v) for m in sorted(CUSTOM_KW) for i in range(len(CUSTOM_KW[m])) for v in ("pair", "cluster") for _ in range(2)]
+N_SWEEP = len(SWEEP_STATE) + len(SWEEP_K2) + len(SWEEP_K2_READS) + len(SWEEP_NI)
 REPRESENTATIVE = {"fa": ["fa_spectrum", "fa_spectrum_abs", "fa_freqs", "fa_frequencies"], "smooth": ["smooth_fa_spectrum"],
                   "vd": ["velocity", "displacement"], "pga": ["pga"], "pgv": ["pgv"], "pgd": ["pgd"],
                   "resp": ["s_a", "s_v", "s_d"]}
@@ -118,11 +129,14 @@ class World(object):
         self.stats = {"steps": 0, "ops": {}, "faults": {}, "cells": set(), "cells_faulted": set(),
                       "state_x_op": set(), "outcomes": {}, "k2_sites": {}, "nontrivial": 0, "kindseq": set(),
                       "fp_errors": 0, "strict_runs": 0, "deepcopy_fallback": 0, "checks": 0, "twin_builds": 0,
-                      "rejected": 0, "runs": 0, "run_class": {}}
+                      "rejected": 0, "runs": 0, "run_class": {}, "ni_checks": 0, "custom_regens": 0, "reused_setting_arrays": 0}
         self.kinds = []
         self.hit_cell = False
         self.last_fault_party = None
         self.pending_recover = {}   # party -> fault kind awaiting a later successful op
+        self.custom = {}            # party -> cache groups filled by an explicit generator call with non-default arguments
+        self.last_obs = {}          # party -> {observable: outcome at the end of the previous step}
+        self.held = {}              # (party, setting) -> the array object the caller passed last time (it may pass it again)
 
 
 def _cls_name(obj):
@@ -136,6 +150,7 @@ def _obs_for(obj):
 
 class C04(Profile):
     prop = "C04"
+    n_sweep = N_SWEEP
     SIGNATURE_KEYS = ("invariant", "observable", "cls", "after", "fault")
 
     def setup(self):
@@ -186,9 +201,12 @@ class C04(Profile):
             cls, mk, k = SWEEP_K2[index - len(SWEEP_STATE)]
             st = list(ALL_GROUPS if cls == "AccSignal" else ("fa", "smooth"))
             cfg.update(run_class="sweep-k2", faults_on=True, sweep={"cls": cls, "state": st, "mk": mk, "site": k})
-        else:
+        elif index < len(SWEEP_STATE) + len(SWEEP_K2) + len(SWEEP_K2_READS):
             cls, x, k = SWEEP_K2_READS[index - len(SWEEP_STATE) - len(SWEEP_K2)]
             cfg.update(run_class="sweep-k2-read", faults_on=True, sweep={"cls": cls, "state": [], "read": x, "site": k})
+        else:
+            m, i, v = SWEEP_NI[index - len(SWEEP_STATE) - len(SWEEP_K2) - len(SWEEP_K2_READS)]
+            cfg.update(run_class="sweep-state", sweep={"cls": "AccSignal", "state": [], "ni": {"m": m, "kw": CUSTOM_KW[m][i], "variant": v}})
         return cfg
 
     def new_world(self, config):
@@ -240,11 +258,18 @@ class C04(Profile):
             kl = world.clusters[op["p"]]
             kw = {a: codec.dec(b) for a, b in op.get("kw", {}).items()}
             return getattr(kl, op["m"])(*[codec.dec(a) for a in op.get("a", [])], **kw)
+        if k == "kread":
+            kl = world.clusters[op["p"]]
+            if op["m"] in ("time", "n_signals"):
+                return getattr(kl, op["m"])
+            if op["m"] == "values_by_index":
+                return kl.values_by_index(op.get("i", 0))
+            return getattr(kl, op["m"])()
         obj = world.objs[op["p"]]
         if k == "read":
             return getattr(obj, op["x"])
         if k == "regen":
-            return getattr(obj, op["m"])()
+            return getattr(obj, op["m"])(**{a: codec.dec(b) for a, b in op.get("kw", {}).items()})
         if k == "iread":
             return self._exec_iread(obj, op)
         if k == "mut":
@@ -257,19 +282,30 @@ class C04(Profile):
             return getattr(obj, name)(*[codec.dec(a) for a in op.get("a", [])], **kw)
         if k == "set":
             how, v = op["how"], codec.dec(op["v"])
+            if isinstance(v, np.ndarray):
+                held = getattr(world, "held", None)
+                hk = (op["p"], "resp" if how in SET_RESP else "smooth")
+                if held is not None:
+                    prev = held.get(hk)
+                    if op.get("reuse") and prev is not None and prev.shape == v.shape:
+                        prev[:] = v        # the caller refills the array it passed last time and passes it again
+                        v = prev
+                        world.stats["reused_setting_arrays"] += 1
+                    held[hk] = v
             if how.startswith("attr:"):
                 setattr(obj, how[5:], v)
                 return None
             if how == "by_range":
                 return obj.set_smooth_fa_frequecies_by_range(v[0], v[1])
+            kw = {a: codec.dec(b) for a, b in op.get("kw", {}).items()}
             if how == "gen_smooth":
-                return obj.gen_smooth_fa_spectrum(smooth_fa_freqs=v)
+                return obj.gen_smooth_fa_spectrum(smooth_fa_freqs=v, **kw)
             if how == "gen_resp":
-                return obj.gen_response_spectrum(response_times=v)
+                return obj.gen_response_spectrum(response_times=v, **kw)
             if how == "generate_resp":
-                return obj.generate_response_spectrum(response_times=v)
+                return obj.generate_response_spectrum(response_times=v, **kw)
             if how == "resp_series":
-                return obj.response_series(response_times=v)
+                return obj.response_series(response_times=v, **kw)
         raise ValueError("unknown op %r" % (op,))
 
     def _exec_iread(self, obj, op):
@@ -297,7 +333,7 @@ class C04(Profile):
         k = op["op"]
         if k in ("new", "newk"):
             return True
-        if k == "kop":
+        if k in ("kop", "kread"):
             return op["p"] in world.clusters
         if op["p"] not in world.objs:
             return False
@@ -384,6 +420,8 @@ class C04(Profile):
             return "set:" + op["how"]
         if k == "kop":
             return "kop:" + op["m"]
+        if k == "kread":
+            return "kread:" + op["m"]
         if k == "new":
             return "new:" + op["cls"]
         return k
@@ -397,7 +435,7 @@ class C04(Profile):
         return None
 
     def _affected(self, world, op):
-        if op["op"] == "kop":
+        if op["op"] in ("kop", "kread"):
             return list(world.members.get(op["p"], []))
         return [op["p"]]
 
@@ -412,12 +450,27 @@ class C04(Profile):
                 world.warm[op["p"]].update(GROUP_OF.get(op["x"], ()))
             return
         if k == "regen":
+            if op.get("kw"):
+                g = set(REGEN_FILLS.get(op["m"], ()))
+                if op["m"] in ("gen_smooth_fa_spectrum", "generate_smooth_fa_spectrum"):
+                    g = {"smooth"}
+                if "fa" in g:
+                    g.add("smooth")
+                if "vd" in g:
+                    g.update(("pgv", "pgd"))
+                world.custom.setdefault(op["p"], set()).update(g)
+                st["custom_regens"] += 1
             if out.ok:
-                world.warm[op["p"]].update(REGEN_FILLS[op["m"]])
+                world.warm[op["p"]].update(REGEN_FILLS.get(op["m"], ()))
             return
         if k == "iread":
             if out.ok:
                 world.warm[op["p"]].update(IREAD_FILLS.get(op["f"], ()))
+            return
+        if k == "kread":
+            if out.ok and op["m"] == "generate_response_spectrums":
+                for p in world.members.get(op["p"], []):
+                    world.warm[p].add("resp")
             return
         # an operation that is supposed to change values or settings
         for p in self._affected(world, op):
@@ -452,6 +505,13 @@ class C04(Profile):
                 else:
                     world.lastread[p] = set()
                     world.warm[p] = set()
+                    # marks of explicit non-default generator calls are dropped only when the values really changed
+                    # (e.g. Cluster.same_start touches one member only; an untouched member keeps what it cached)
+                    if p in world.custom:
+                        prev = world.last_obs.get(p, {}).get("__values__")
+                        cur = codec.digest(np.asarray(obj.values))
+                        if prev is None or prev != cur:
+                            world.custom.pop(p, None)
 
     # ------------------------------------------------------------------------------------------
     # the oracle
@@ -489,7 +549,7 @@ class C04(Profile):
     def _check(self, world, op, out, step, kind, fkind, pre):
         base = {"property": "C04", "step": step, "after": kind, "fault": fkind}
         # (a) the value a real read returned
-        if op["op"] == "read" and not (fkind == "K2" and not out.ok):
+        if op["op"] == "read" and not (fkind == "K2" and not out.ok) and not self._is_custom(world, op["p"], op["x"]):
             # (a read into which a failure was injected may itself fail; if it returns, it must be right)
             obj = world.objs[op["p"]]
             ref = self.twin_outcome(world, obj, op["x"])
@@ -500,7 +560,7 @@ class C04(Profile):
                          subject=out.brief(), twin=ref.brief())
                 return v
         # (a') the value an analysis function computed from the object equals what it computes from a fresh object
-        if op["op"] == "iread" and not (fkind == "K2" and not out.ok):
+        if op["op"] == "iread" and not (fkind == "K2" and not out.ok) and not world.custom.get(op["p"]):
             obj = world.objs[op["p"]]
             cache = world.twins.setdefault(self._twin_key(obj), {})
             k = "iread:" + op["f"]
@@ -520,6 +580,9 @@ class C04(Profile):
                 return v
         # (c) every observable of every object, read from a deep copy in a recorded pseudo-random order
         cs = op.get("cs", 0)
+        affected = set(self._affected(world, op))
+        if op["op"] == "newk":
+            affected.update(world.members.get(op["p"], []))
         for pname in sorted(world.objs):
             obj = world.objs[pname]
             try:
@@ -532,13 +595,34 @@ class C04(Profile):
             key = self._twin_key(obj)
             rtol = self._rtol(obj)
             bad = {}
+            moved = {}
+            prev = world.last_obs.get(pname) if pname not in affected else None
+            now = {}
             for x in obs:
                 got = capture(getattr, sub, x)
+                now[x] = got
+                # non-interference: an operation on another party leaves every observable of this object as it was
+                if prev is not None and x in prev and x != "__values__":
+                    world.stats["ni_checks"] += 1
+                    why = outcomes_agree(got, prev[x], 1e-12)
+                    if why:
+                        moved[x] = (why, got, prev[x])
+                if self._is_custom(world, pname, x):
+                    continue      # filled by an explicit generator call with non-default arguments: no fresh-object reference
                 ref = self.twin_outcome(world, obj, x, key)
                 world.stats["checks"] += 1
                 why = outcomes_agree(got, ref, rtol)
                 if why:
                     bad[x] = (why, got, ref)
+            now["__values__"] = codec.digest(np.asarray(obj.values))
+            world.last_obs[pname] = now
+            if moved:
+                first = [x for x in _obs_for(obj) if x in moved][0]
+                why, got, ref = moved[first]
+                return dict(base, invariant="non-interference", observable=first, cls=_cls_name(obj), party=pname,
+                            what="%s.%s changed although the operation (%s) was applied to another party: %s"
+                                 % (pname, first, kind, why),
+                            all_bad=sorted(moved), subject=got.brief(), before=ref.brief())
             if bad:
                 first = [x for x in _obs_for(obj) if x in bad][0]
                 why, got, ref = bad[first]
@@ -547,6 +631,12 @@ class C04(Profile):
                                  % (pname, first, why),
                             all_bad=sorted(bad), read_order=obs, subject=got.brief(), twin=ref.brief())
         return None
+
+    def _is_custom(self, world, pname, x):
+        c = world.custom.get(pname)
+        if not c:
+            return False
+        return any(g in c for g in GROUP_OF.get(x, ()))
 
     def _echo(self, world, op, pre, base):
         obj = world.objs[op["p"]]
@@ -729,7 +819,7 @@ class OpGen(object):
                 op["fault"] = {"k": "K2", "site": k, "of": n}
             return op
         # K2: arm an allocation failure inside this operation
-        if (self.cfg["faults_on"] and op["op"] not in ("new", "newk") and not op.get("fault")
+        if (self.cfg["faults_on"] and op["op"] not in ("new", "newk") and not op.get("fault") and not op.get("no_fault")
                 and op.get("want_k2", rng.random() < self.cfg["k2_rate"])
                 and world.last_fault_party != op["p"]):
             n = self.profile.count_sites(world, op)
@@ -746,6 +836,24 @@ class OpGen(object):
         rng, cfg = self.rng, self.cfg
         sw = cfg["sweep"]
         cls = sw["cls"]
+        if "ni" in sw:
+            ni = sw["ni"]
+            if ni["variant"] == "cluster":
+                self.queue.append(lambda w: self.g_newk("K0", first_cls="AccSignal"))
+                a, b = "K0.0", "K0.1"
+            else:
+                self.queue.append(lambda w: self.g_new("S0", "AccSignal"))
+                self.queue.append(lambda w: self.g_new("S1", "AccSignal", like="S0"))
+                a, b = "S0", "S1"
+            grp = [g for g in REGEN_FILLS.get(ni["m"], ("fa",))][-1]
+            x = rng.choice(REPRESENTATIVE[grp])
+            for who in (a, b):
+                self.queue.append(lambda w, who=who: {"op": "regen", "p": who, "m": ni["m"], "kw": dict(ni["kw"])})
+                self.queue.append(lambda w, who=who: {"op": "read", "p": who, "x": x})
+            self.queue.append(lambda w: {"op": "read", "p": a, "x": x})
+            self.queue.append(lambda w: self.g_mut(w, b, "add_constant"))
+            self.queue.append(lambda w: {"op": "read", "p": a, "x": x})
+            return
         mk = sw.get("mk", "")
         on_cluster = mk.startswith("kop:")
         if on_cluster:
@@ -902,11 +1010,21 @@ class OpGen(object):
             return self.g_set(world, p)
         if r < 0.84:
             ms = REGEN_ACC if _cls_name(obj) == "AccSignal" else REGEN_SIG
-            return {"op": "regen", "p": p, "m": rng.choice(ms)}
+            op = {"op": "regen", "p": p, "m": rng.choice(ms)}
+            if rng.random() < 0.3 and op["m"] in CUSTOM_KW:
+                op["kw"] = dict(rng.choice(CUSTOM_KW[op["m"]]))
+            return op
         if r < 0.93 or not world.clusters:
             fs = IREAD_ACC if _cls_name(obj) == "AccSignal" else IREAD_SIG
             return {"op": "iread", "p": p, "f": rng.choice(fs)}
-        return self.g_kop(world, sorted(world.clusters)[0])
+        kname = sorted(world.clusters)[0]
+        if rng.random() < 0.35:
+            m = rng.choice(KREADS)
+            op = {"op": "kread", "p": kname, "m": m}
+            if m == "values_by_index":
+                op["i"] = rng.randrange(world.clusters[kname].n_signals)
+            return op
+        return self.g_kop(world, kname)
 
     def _guard(self, world, p):
         obj = world.objs[p]
@@ -1051,6 +1169,58 @@ class OpGen(object):
             t = gen_periods(rng, allow_zero=(how != "resp_series"))
             c = rng.random()
             op["v"] = t if (c < 0.2 and how == "attr:response_times") else nd(t)
+        # the caller passes the same array object again, refilled (only meaningful for ndarray arguments of equal length)
+        if isinstance(op.get("v"), dict) and "nd" in op["v"] and how in ("attr:smooth_fa_freqs", "attr:smooth_fa_frequencies",
+                                                                          "gen_smooth") + tuple(SET_RESP):
+            prev = world.held.get((p, "resp" if how in SET_RESP else "smooth"))
+            if prev is not None and rng.random() < 0.5:
+                cur = [float(x) for x in prev]
+                c = rng.random()
+                if c < 0.4 and len(cur) >= 3:
+                    # same count, same end points, different interior spacing
+                    lo, hi = cur[0], cur[-1]
+                    inner = sorted(round(rng.uniform(min(lo, hi), max(lo, hi)), 4) for _ in range(len(cur) - 2))
+                    new = [lo] + inner + [hi]
+                elif c < 0.7:
+                    f = rng.choice([0.5, 2.0, 1.25])
+                    new = [round(x * f, 6) for x in cur]
+                else:
+                    new = None
+                if new is not None and len(set(new)) == len(new) and new != cur:
+                    op["v"] = nd(new)
+                    if rng.random() < 0.6:
+                        op["reuse"] = True
+                        op["no_fault"] = True
+        # K3: under strict floating point, settings that make a *real* FloatingPointError arise inside the computation
+        # that follows the change: a smoothing frequency exactly on an FFT bin (0/0 in the Konno-Ohmachi window), a zero
+        # response period that is not the first one (division by zero in the oscillator frequencies)
+        if self.cfg.get("strict_fp") and rng.random() < 0.5 and isinstance(op.get("v"), dict) and "nd" in op["v"]:
+            try:
+                n = len(obj.values)
+                dt = float(obj.dt)
+                if how in ("attr:smooth_fa_freqs", "attr:smooth_fa_frequencies", "gen_smooth") and n >= 4:
+                    points = int(2 ** int(np.ceil(np.log2(n))) / 2)
+                    j = rng.randint(1, max(1, points - 1))
+                    fbin = float(np.arange(points)[j] / (2 * points * dt))
+                    vals = sorted(set(op["v"]["v"] + [fbin]))
+                    op["v"] = nd(vals)
+                elif how in SET_RESP and len(op["v"]["v"]) >= 2:
+                    vals = list(op["v"]["v"])
+                    vals[rng.randint(1, len(vals) - 1)] = 0.0
+                    op["v"] = nd(vals)
+            except Exception:  # noqa
+                pass
+        # K1: arguments that make the call fail *after* it has stored the new setting (no injection needed)
+        if self.cfg["faults_on"] and rng.random() < self.cfg["k1_rate"] and not op.get("reuse"):
+            if how in ("gen_resp", "generate_resp"):
+                op["kw"] = {"min_dt_ratio": 0}          # ZeroDivisionError when the time step is computed
+                op["k1"] = True
+            elif how == "resp_series":
+                op["kw"] = {"xi": "x"}                  # TypeError inside the back end
+                op["k1"] = True
+            elif how == "gen_smooth":
+                op["kw"] = {"band": None}               # TypeError inside the smoothing computation
+                op["k1"] = True
         return op
 
     # -- cluster -----------------------------------------------------------------------------------
